@@ -8,7 +8,8 @@
      &root[off..off + len]               = Panic when out of bounds
      unwrap / unreachable! / expect      = Panic
    The frontier VecDeque (pop_front / push_back, `len` times) is the list of positions in order; a step maps every
-   position to the positions it pushes, an error ends the walk at once.  PathSem.v is the same evaluator with positions
+   position to the positions it pushes, an error ends the walk at once.  filter_expr recurses structurally on the
+   expression: there is no recursion fuel, a path of any length and nesting is evaluated in full.  PathSem.v is the same evaluator with positions
    replaced by the values they denote; SelWalkProofs.v proves the two agree on every canonical encoding.
    Executable definitions only. *)
 From Coq Require Import List NArith ZArith Bool.
@@ -199,25 +200,28 @@ Definition expr_values_w (bs : list N) (pos : position) (e : expr) : res (list p
   | _ => Panic
   end.
 
-Fixpoint find_positions_w (fuel : nat) (bs : list N) (current : option position) (ps : list path) : res (list position) :=
-  match fuel with O => Err EFuel | S f =>
+Definition find_positions_with_w (fe : position -> expr -> res bool) (bs : list N) (current : option position) (ps : list path)
+  : res (list position) :=
   do start <- match ps with
               | PCurrent :: _ => match current with Some c => Ok c | None => Panic end
               | _ => Ok (root_position_w bs) end;
-  walk_w bs (fun pos e => filter_expr_w f bs pos e) ps [start]
-  end
-with filter_expr_w (fuel : nat) (bs : list N) (pos : position) (e : expr) : res bool :=
-  match fuel with O => Err EFuel | S f =>
+  walk_w bs fe ps [start].
+(* filter_expr / eval_exists: structural on the expression, as in PathSem.v (no fuel) *)
+Fixpoint filter_expr_w (bs : list N) (pos : position) (e : expr) {struct e} : res bool :=
   match e with
-  | EBin OOr l r => do a <- filter_expr_w f bs pos l; do b <- filter_expr_w f bs pos r; Ok (a || b)
-  | EBin OAnd l r => do a <- filter_expr_w f bs pos l; do b <- filter_expr_w f bs pos r; Ok (a && b)
+  | EBin OOr l r => do a <- filter_expr_w bs pos l; do b <- filter_expr_w bs pos r; Ok (a || b)
+  | EBin OAnd l r => do a <- filter_expr_w bs pos l; do b <- filter_expr_w bs pos r; Ok (a && b)
   | EBin op l r =>
       do a <- expr_values_w bs pos l;
       do b <- expr_values_w bs pos r;
       exists_res (fun x => exists_res (fun y => compare_value op x y) b) a
-  | EExists ps => do fr <- find_positions_w f bs (Some pos) ps; Ok (match fr with [] => false | _ => true end)
+  | EExists ps =>
+      do fr <- find_positions_with_w (fun pos' e' => filter_expr_w bs pos' e') bs (Some pos) ps;
+      Ok (match fr with [] => false | _ => true end)
   | _ => Err EOther
-  end end.
+  end.
+Definition find_positions_w (bs : list N) (current : option position) (ps : list path) : res (list position) :=
+  find_positions_with_w (fun pos e => filter_expr_w bs pos e) bs current ps.
 
 (* ---- the result writers ---- *)
 (* build_values: each position is copied out as a complete document, the running end is pushed *)
@@ -258,7 +262,7 @@ Definition build_predicate_result_w (poses : list position) (data : list N) : li
 
 (* ---- Selector::select / exists / predicate_match ---- *)
 Definition select_w (bs : list N) (ps : list path) (m : mode) (buf : list N) : res (list N * list N) :=
-  do poses <- find_positions_w PATH_FUEL bs None ps;
+  do poses <- find_positions_w bs None ps;
   if is_predicate ps then Ok (build_predicate_result_w poses buf, [])
   else
     match m with
@@ -269,16 +273,17 @@ Definition select_w (bs : list N) (ps : list path) (m : mode) (buf : list N) : r
     end.
 Definition sel_exists_w (bs : list N) (ps : list path) : res bool :=
   if is_predicate ps then Ok true
-  else do poses <- find_positions_w PATH_FUEL bs None ps; Ok (match poses with [] => false | _ => true end).
+  else do poses <- find_positions_w bs None ps; Ok (match poses with [] => false | _ => true end).
 Definition sel_predicate_match_w (bs : list N) (ps : list path) : res bool :=
   if negb (is_predicate ps) then Err EInvalidPredicate
-  else do poses <- find_positions_w PATH_FUEL bs None ps; Ok (match poses with [] => false | _ => true end).
+  else do poses <- find_positions_w bs None ps; Ok (match poses with [] => false | _ => true end).
 
-(* ---- functions.rs: is_jsonb, then the selector on the buffer or the text branch of Dispatch.v ---- *)
+(* ---- functions.rs: is_jsonb, then the selector on the buffer; for a JSON text argument the value is parsed, encoded
+   (`parse_value(value)?.to_vec()` / `if let Ok(val) = parse_value(value)`) and the SAME byte selector runs on those bytes ---- *)
 Definition get_by_path_gen_w (m : mode) (bs : list N) (ps : list path) (buf : list N) : res (list N * list N) :=
   if is_jsonb bs then select_w bs ps m buf
   else match parse_value bs with
-       | Ok v => select_t v ps m buf
+       | Ok v => select_w (to_vec v) ps m buf
        | Err _ => Ok (buf, [])
        | Panic => Panic
        end.
@@ -287,7 +292,7 @@ Definition get_by_path_first_w := get_by_path_gen_w MFirst.
 Definition get_by_path_array_w := get_by_path_gen_w MArray.
 Definition path_exists_w (bs : list N) (ps : list path) : res bool :=
   if is_jsonb bs then sel_exists_w bs ps
-  else match parse_value bs with Ok v => exists_t v ps | Err _ => Ok false | Panic => Panic end.
+  else match parse_value bs with Ok v => sel_exists_w (to_vec v) ps | Err _ => Ok false | Panic => Panic end.
 Definition path_match_w (bs : list N) (ps : list path) : res bool :=
   if is_jsonb bs then sel_predicate_match_w bs ps
-  else do v <- parse_value bs; predicate_match_t v ps.
+  else do v <- parse_value bs; sel_predicate_match_w (to_vec v) ps.
